@@ -7,9 +7,26 @@ from concurrent.futures import ThreadPoolExecutor
 
 VERIF = os.path.dirname(os.path.dirname(os.path.dirname(os.path.abspath(__file__))))
 REPO = os.environ.get('MPYC_REPO', '/repo')
-COQ = os.path.join(VERIF, 'coq')
-EVID = os.path.join(VERIF, 'evidence')
-REPLAYS = os.path.join(VERIF, 'replays')
+COQ_MAIN = os.path.join(VERIF, 'coq')
+# VERIF_ALT=<scratch dir>: a run against another tree than /repo (seeded changes, see harness/seeded_run.sh) keeps its
+# generated tables, compiled property files, case files, evidence and replays in that scratch directory, so that it
+# can neither disturb a concurrent run against /repo nor leave evidence of a modified tree in /verif/evidence.
+ALT = os.environ.get('VERIF_ALT')
+if ALT:
+    COQ = os.path.join(ALT, 'coq')
+    EVID = os.path.join(ALT, 'evidence')
+    REPLAYS = os.path.join(ALT, 'replays')
+    for _d in ('gen', 'cases', 'props'):
+        os.makedirs(os.path.join(COQ, _d), exist_ok=True)
+    if not os.path.exists(os.path.join(COQ, 'theories')):
+        os.symlink(os.path.join(COQ_MAIN, 'theories'), os.path.join(COQ, 'theories'))
+    for _f in os.listdir(os.path.join(COQ_MAIN, 'props')):
+        if _f.endswith('.v'):
+            shutil.copy(os.path.join(COQ_MAIN, 'props', _f), os.path.join(COQ, 'props', _f))
+else:
+    COQ = COQ_MAIN
+    EVID = os.path.join(VERIF, 'evidence')
+    REPLAYS = os.path.join(VERIF, 'replays')
 PY = '/venv/bin/python'
 PYNP = os.path.join(VERIF, '.venv-np', 'bin', 'python')
 COQFLAGS = ['-Q', 'theories', 'MPyC', '-Q', 'gen', 'MPyCGen', '-Q', 'props', 'MPyCProps', '-Q', 'cases', 'MPyCCases']
@@ -45,19 +62,19 @@ class BuildLock:
 
 
 def ensure_makefile():
-    mk = os.path.join(COQ, 'Makefile')
-    cp = os.path.join(COQ, '_CoqProject')
+    mk = os.path.join(COQ_MAIN, 'Makefile')
+    cp = os.path.join(COQ_MAIN, '_CoqProject')
     if not os.path.exists(mk) or os.path.getmtime(mk) < os.path.getmtime(cp):
-        rc, out = sh(['coq_makefile', '-f', '_CoqProject', '-o', 'Makefile'], cwd=COQ)
+        rc, out = sh(['coq_makefile', '-f', '_CoqProject', '-o', 'Makefile'], cwd=COQ_MAIN)
         if rc:
             raise RuntimeError('coq_makefile failed: ' + out)
 
 
 def regen_coqproject():
     """_CoqProject lists every theories/*.v (props are compiled per check, gen per run)."""
-    files = sorted(f for f in os.listdir(os.path.join(COQ, 'theories')) if f.endswith('.v'))
+    files = sorted(f for f in os.listdir(os.path.join(COQ_MAIN, 'theories')) if f.endswith('.v'))
     txt = '-Q theories MPyC\n' + ''.join('theories/%s\n' % f for f in files)
-    cp = os.path.join(COQ, '_CoqProject')
+    cp = os.path.join(COQ_MAIN, '_CoqProject')
     old = open(cp).read() if os.path.exists(cp) else None
     if old != txt:
         open(cp, 'w').write(txt)
@@ -68,7 +85,7 @@ def build_theories(jobs=16, timeout=3000):
     with BuildLock():
         regen_coqproject()
         ensure_makefile()
-        rc, out = sh(['make', '-k', '-j%d' % jobs, '-f', 'Makefile'], cwd=COQ, timeout=timeout)
+        rc, out = sh(['make', '-k', '-j%d' % jobs, '-f', 'Makefile'], cwd=COQ_MAIN, timeout=timeout)
         return rc == 0, out
 
 
